@@ -263,4 +263,9 @@ def run(ctx):
             rule_openers(prog)]
 
 
-SELFTESTS = []
+SELFTESTS = [
+    (rule_hint_name, ["c10_bad.cc"], ["c10_good.cc"], ".ddd"),
+    (rule_gzip_only, ["c10_bad.cc"], ["c10_good.cc"], "default"),
+    (rule_zlib_census, ["c10_bad.cc"], ["c10_good.cc"], "inflateValidate"),
+    (rule_all_members, ["c10_bad.cc"], ["c10_good.cc"], "members"),
+]
